@@ -175,6 +175,9 @@ pub fn api_call(mgr: &KrillManager, op: &Op) -> String {
         Op::RepublishAll { force, .. } => {
             block_on(mgr.republish_all(*force)).map_err(err_string)
         }
+        Op::DeleteCa { name, .. } => {
+            block_on(mgr.ca_delete(handle(name), ADMIN)).map_err(err_string)
+        }
         _ => Err("harness: not a single call".to_string()),
     };
     label(&res)
@@ -267,6 +270,29 @@ fn build(seed: u64, profile: &ConcProfile, base: &std::path::Path) -> Result<Bui
             }
         }
         thread_ops.push(ops);
+    }
+    // In a third of the runs with the scheduler one request deletes a CA
+    // (a leaf created for the purpose, which no other generated request
+    // refers to): the deletion revokes at the parent, deactivates the CA
+    // and drops it while the scheduler thread works on the tasks these
+    // steps queue for the very same CA.
+    if profile.with_scheduler && op_rng.chance(1, 3) {
+        let victim = "victim";
+        runner.exec(&Op::CreateCa {
+            inst: 0, name: victim.into(), parent_inst: 0,
+            parent: "testbed".into(),
+            res: crate::model::Res { v4: 0x8000, v6: 0x80, asn: 0x80 },
+        });
+        let _ = runner.views();
+        runner.exec(&Op::Pump);
+        if runner.dead.is_some() {
+            return Err(format!("victim CA: {:?}", runner.dead))
+        }
+        let t = op_rng.usize(thread_ops.len());
+        let pos = op_rng.usize(thread_ops[t].len() + 1);
+        thread_ops[t].insert(pos, Op::DeleteCa {
+            inst: 0, name: victim.into(),
+        });
     }
     // Not the object bytes: certificate serial numbers come from OpenSSL's
     // generator, which cannot be re-seeded within a process.
@@ -1225,7 +1251,13 @@ pub fn run(seed: u64, profile: &ConcProfile, replay: Option<Vec<u16>>) -> RunRep
                                     .any(|op| matches!(
                                         op, Op::RepublishAll { .. }
                                     ));
-                                if profile.with_scheduler && maintenance {
+                                let deletion = thread_ops.iter().flatten()
+                                    .any(|op| matches!(
+                                        op, Op::DeleteCa { .. }
+                                    ));
+                                if profile.with_scheduler && maintenance
+                                    && !deletion
+                                {
                                     violations.push(Violation {
                                         prop: "C14".into(),
                                         rule: "maintenance_overlap_changed_content".into(),
